@@ -1,4 +1,4 @@
 From Coq Require Import Extraction ExtrOcamlBasic.
-From Verif Require Import Rewrite.Model.
+From Verif Require Import Rewrite.Model Rewrite.OwnAs.
 Extraction Language OCaml.
-Extraction "model.ml" update_path_attrs export_attrs.
+Extraction "model.ml" update_path_attrs export_attrs has_own_as_loop.
